@@ -123,11 +123,25 @@ def rule_shave_bound(ctx: Ctx, prog: Program) -> None:
             ctx.violation("R-SHAVE", fn.path, "shave_bound", f"restore:{which}:{'refuted' if refuted else 'kept'}", fn.loc(),
                           f"probing {which}, probe {'refuted' if refuted else 'not refuted'}: the domain ends as [{show_val(fmin)}, {show_val(fmax)}]; expected "
                           f"[{show_val(exp[0])}, {show_val(exp[1])}] ({what})")
-        # (v) exactly one pop, after the propagation
-        if len(bts) == 1 and r.events.index(bts[0]) > r.events.index(bc[0]):
-            ctx.ok("R-SHAVE", f"{which}: exactly one backtrack after the probe")
+        # (v) the probe is undone: the pointer is back at T (checked above) and the events recorded for the saved alternative are
+        # replayed once, after the propagation, against the enabled-flags row of the level that becomes current (T)
+        upd = role_param(prog, fn, "dom_update_stack")
+        replays = [e for e in calls_named(r.events, "add_propagators") if r.events.index(e) > r.events.index(bc[0])]
+        okr = False
+        if len(replays) == 1:
+            a = replays[0].args
+            row = as_view(a[1])
+            okr = (as_view(a[0]) == View(trig, ()) and isinstance(row, View) and row.root == flags and tuple(row.idx) == (T,)
+                   and as_view(a[2]) == View(trgs, ())
+                   and it.value_at(s, replays[0].hpos, a[3]) == it.load_at(s, replays[0].hpos, upd, (T, K(prog.C("DOM_UPDATE_IDX"))))
+                   and it.value_at(s, replays[0].hpos, a[4]) == it.load_at(s, replays[0].hpos, upd, (T, K(prog.C("DOM_UPDATE_EVENTS")))))
+        if okr:
+            ctx.ok("R-SHAVE", f"{which}: after the probe the saved alternative's events are replayed once on the row of the restored level")
         else:
-            ctx.violation("R-SHAVE", fn.path, "shave_bound", "one-backtrack", fn.loc(), f"the probe must be undone by exactly one backtrack (found {len(bts)})")
+            ctx.violation("R-SHAVE", fn.path, "shave_bound", "undo-replay", fn.loc(),
+                          f"after the probe ({which}) the watchers of the saved alternative's recorded events must be re-queued exactly once against the "
+                          f"enabled-flags row of the restored level T (found {len(replays)} wake-up call(s)"
+                          + (f", row {as_view(replays[0].args[1])!r}" if replays else "") + ")")
         # other domains / lower levels untouched by shave_bound's own stores
         for e in r.events:
             if e.kind == "store" and e.root == stack and e.fn == fn.fq:
@@ -167,6 +181,32 @@ def rule_shaving_loop(ctx: Ctx, prog: Program) -> None:
         ctx.ok("R-SHAVE", "the first iteration propagates (flag starts true)")
     else:
         ctx.violation("R-SHAVE", fn.path, fn.name, "initial-propagation", fn.loc(), "shaving must start by a propagation pass")
+    # the first iteration is always entered (at least one shared domain) and starts with a propagation pass
+    fi = Interp(prog, no_inline={"bound_consistency_algorithm": None, "shave_bound": None, "first_not_instantiated_var_heuristic": []})
+    st0 = State()
+    st0.env = dict(loop.pre_env)
+    stack = role_param(prog, fn, "shr_domains_stack")
+    st0.facts.add(cmp_cond(">=", Aff.atom(("len", stack, (K(0),))), ONE))
+    fi.cur_fn.append(fn)
+    try:
+        entered = fi.branch(loop.node.test, st0, loop.node)
+        first_paths = []
+        for st1, taken in entered:
+            if taken:
+                first_paths.extend(fi.exec_block(loop.node.body, st1))
+    finally:
+        fi.cur_fn.pop()
+    if [t for _, t in entered] != [True]:
+        ctx.violation("R-SHAVE", fn.path, fn.name, "first-pass-skippable", f"{fn.path}:{loop.node.lineno}",
+                      "the probing loop (which contains the propagation pass) may not be entered at all: shaving can then return PROBLEM_UNBOUND "
+                      "without having propagated, i.e. with domains that plain bound consistency would have reduced, solved or refuted")
+    else:
+        bad = [p_ for p_ in first_paths if not [e for e in p_.state.trace if e.kind == "call" and e.name and e.name.endswith("bound_consistency_algorithm")]]
+        if bad:
+            ctx.violation("R-SHAVE", fn.path, fn.name, "first-pass-missing", f"{fn.path}:{loop.node.lineno}",
+                          "a path through the first iteration of the shaving loop does not run a propagation pass")
+        else:
+            ctx.ok("R-SHAVE", "every call propagates at least once before anything is returned", sample={"first_iteration_paths": len(first_paths)})
     n = 0
     for bp in loop.paths:
         s = bp.state
